@@ -895,6 +895,13 @@ class BlockCanon:
             return st
         if isinstance(st, (ast.With, ast.AsyncWith)):
             st.body = self.block(st.body, tail)
+            # with suppress(E): BODY  ->  try: BODY  except E: pass
+            if isinstance(st, ast.With) and len(st.items) == 1 and st.items[0].optional_vars is None and isinstance(st.items[0].context_expr, ast.Call) \
+                    and norm_name(st.items[0].context_expr.func) in ("suppress", "contextlib.suppress") and st.items[0].context_expr.args and not st.items[0].context_expr.keywords:
+                a_ = st.items[0].context_expr.args
+                typ = a_[0] if len(a_) == 1 else _loc(ast.Tuple(elts=list(a_), ctx=ast.Load()), st)
+                self.changed = True
+                return _loc(ast.Try(body=st.body, handlers=[_loc(ast.ExceptHandler(type=typ, name=None, body=[_loc(ast.Pass(), st)]), st)], orelse=[], finalbody=[]), st)
             return st
         if isinstance(st, ast.Try):
             st.body = self.block(st.body, None)
@@ -2411,8 +2418,47 @@ def _canon_function(fn, may_write, single_use: bool = True) -> bool:
 CANON_FAILURES: List[str] = []
 
 
-def _canon_function_inner(fn, may_write, single_use: bool = True) -> bool:
+def _list_iadd_to_extend(fn) -> bool:
+    """`acc += it` -> `acc.extend(it)` for a local that is only ever bound to list displays / comprehensions / list()."""
+    own = list(_own_nodes(fn))
+    binds: Dict[str, List[ast.AST]] = {}
+    for n in own:
+        if isinstance(n, ast.Assign):
+            for t in n.targets:
+                if isinstance(t, ast.Name):
+                    binds.setdefault(t.id, []).append(n.value)
+                else:
+                    for x in ast.walk(t):
+                        if isinstance(x, ast.Name) and isinstance(x.ctx, ast.Store):
+                            binds.setdefault(x.id, []).append(None)
+        elif isinstance(n, ast.AnnAssign) and isinstance(n.target, ast.Name) and n.value is not None:
+            binds.setdefault(n.target.id, []).append(n.value)
+        elif isinstance(n, (ast.For, ast.comprehension)):
+            for x in ast.walk(n.target):
+                if isinstance(x, ast.Name):
+                    binds.setdefault(x.id, []).append(None)
+    params = _params(fn)
+
+    def is_list(v) -> bool:
+        return isinstance(v, (ast.List, ast.ListComp)) or (isinstance(v, ast.Call) and isinstance(v.func, ast.Name) and v.func.id == "list")
+
+    lists = {k for k, vs in binds.items() if k not in params and vs and all(v is not None and is_list(v) for v in vs)}
     changed = False
+    if not lists:
+        return False
+    for blk in SingleUseInliner._blocks(fn):
+        for i, st in enumerate(blk):
+            if isinstance(st, ast.AugAssign) and isinstance(st.op, ast.Add) and isinstance(st.target, ast.Name) and st.target.id in lists:
+                call = ast.Call(func=ast.Attribute(value=ast.Name(id=st.target.id, ctx=ast.Load()), attr="extend", ctx=ast.Load()), args=[st.value], keywords=[])
+                blk[i] = _loc(ast.Expr(value=call), st)
+                for x in ast.walk(blk[i]):
+                    ast.copy_location(x, st)
+                changed = True
+    return changed
+
+
+def _canon_function_inner(fn, may_write, single_use: bool = True) -> bool:
+    changed = _list_iadd_to_extend(fn) if enabled("C2") else False
     for _ in range(6):
         round_changed = False
         ec = _ExprCanon()
